@@ -49,6 +49,8 @@ class LoopSpec:
     decreases: Callable | None = None
     index: str | None = None       # name of the ghost index variable for `for x in seq` loops
     unroll: bool = False
+    locals: dict = field(default_factory=dict)        # local name -> T: coerce (e.g. an empty python list) before the loop
+    step: Callable | None = None                      # fn(head_view, end_view) -> clauses proved for one arbitrary iteration
 
 
 @dataclass
